@@ -36,6 +36,17 @@ WRITERS = {
 }
 
 
+def more_arg(t):
+    """What a `finalize` argument says about more results: a bool, or a StatusFlags value (bit 0x0008). True/False/None."""
+    if T.const_int(t) is not None and isinstance(t, tuple) and t[0] == "const" and t[1][0] == "int":
+        return bool(T.const_int(t))
+    if isinstance(t, tuple) and t[0] == "const" and t[1][0] == "bits":
+        return None if (t[1][1] & ~SPEC.MORE_RESULTS_EXISTS) else bool(t[1][1] & SPEC.MORE_RESULTS_EXISTS)
+    if T.is_call(t, r"StatusFlags>::empty$"):
+        return False
+    return None
+
+
 def run(ctx):
     prog = ctx.prog("tls")
     roles, eff = effects.build(prog)
@@ -100,7 +111,7 @@ def run(ctx):
             if classify_return(p) == "err" and not ev:
                 continue
             n += 1
-            ok = bool(ev) and ev[0][3] == fin.path and T.is_const_int(p.arg(ev[0][0], 1), flag)
+            ok = bool(ev) and ev[0][3] == fin.path and more_arg(p.arg(ev[0][0], 1)) is bool(flag)
             ctx.ob("C03.finalize-first", ok, "%s: the first connection write is %s (need finalize(%s) first)" % (m, (ev[0][3] + "(" + term_str(p.arg(ev[0][0], 1)) + ")") if ev else None, "true" if flag else "false"),
                    fn=b.path, construct="first-write", where=b.where(p.blocks[-1]), sample={"rule": "finalize-first", "method": m, "first": ev[0][3] if ev else None})
         ctx.floor("C03.finalize-first", "paths of %s" % m, n, 1)
@@ -134,7 +145,7 @@ def run(ctx):
             b = prog.bodies[imp["methods"][0]]
             ctx.fn(b)
             calls = [(bb, t) for bb, t in b.calls() if cname(t["func"]) == fin.path]
-            ok = len(calls) == 1 and T.is_const_int(b.arg_origin(calls[0][0], 1), 0)
+            ok = len(calls) == 1 and more_arg(b.arg_origin(calls[0][0], 1)) is False
             ctx.ob("C03.drop-finalises", ok, "dropping a QueryResultWriter must flush the pending terminator with more_results=false", fn=b.path, construct="drop")
     # inside finalize: bit 0x0008 iff more_exists; take()
     n = 0
@@ -181,12 +192,16 @@ def run(ctx):
         elif direct is not None:
             bits |= direct
         ok = more is not None and ((bits & SPEC.MORE_RESULTS_EXISTS) != 0) == more and (bits & ~SPEC.MORE_RESULTS_EXISTS) == 0
+        if more is None and "StatusFlags" in (fin.raw.get("sig_in") or ["", ""])[1] and T.is_param(T.peel(status_arg), 2) and not sets:
+            # finalize is handed the status word itself and passes it on untouched: the callers' arguments (checked by the
+            # first-write rule above: SERVER_MORE_RESULTS_EXISTS / empty()) decide the bit
+            ok = True
         ctx.ob("C03.finalize-first", ok, "finalize(more_exists=%s) sends status bits %#06x (bit 0x0008 must be set exactly when more results follow)" % (more, bits),
                fn=fin.path, construct="status-bit", callee=cname(wr[0][1]["func"]), where=fin.where(p.blocks[-1]), key_extra={"more": more},
                sample={"rule": "finalize-first/status", "more_exists": more, "bits": bits})
         took = any(cname(t["func"]).endswith("Option::<T>::take") for pos, bb, t in p.calls())
         ctx.ob("C03.finalize-first", took, "the pending terminator is written without being consumed (could be written twice)", fn=fin.path, construct="take", nontrivial=False)
-    ctx.floor("C03.finalize-first", "terminator-writing paths of finalize", n, 4)
+    ctx.floor("C03.finalize-first", "terminator-writing paths of finalize", n, 2)
 
     # ---- terminator-choice --------------------------------------------------------------------
     fi = prog.one(r"^resultset::RowWriter::<'a, W>::finish_inner$")
